@@ -5,7 +5,7 @@ import Enc.Lemmas.JsonCodecChoiceTerm
 # The specification's expansion of embedded structs does not depend on its context
 
 `stdEmbedded codec env ef visited typ addr` (the promoted fields of the embedded struct type `typ`) carries a fuel and the
-list of struct types being expanded on the way. When no embedding below `typ` is recursive (`NoEmbedCycle env typ`) the
+list of struct types being expanded on the way. When `typ` contains no cycle of embedded structs (`NoEmbeddedCycle env typ`) the
 `visited` check never fires and the fuel `embedFuel` is never exhausted, so the result is the field list of `typ` on its
 own: `stdEmbedded_eq_fields`.
 -/
@@ -22,13 +22,9 @@ theorem reach_trans {env : Env} {a b c : TD} (h1 : Reach env a b) (h2 : Reach en
 
 theorem reach_child {env : Env} {a b : TD} (h : b ∈ children env a) : Reach env a b := .step (.refl a) h
 
-theorem noEmbedCycle_of_reach {env : Env} {t S : TD} (h : NoEmbedCycle env t) (hr : Reach env t S) : NoEmbedCycle env S :=
+theorem noEmbedCycle_of_reach {env : Env} {t S : TD} (h : NoEmbeddedCycle env t) (hr : Reach env t S) :
+    NoEmbeddedCycle env S :=
   fun S' typ hS' htyp hb => h S' typ (reach_trans hr hS') htyp hb
-
-/-- the struct types reached through embedding only -/
-inductive EmbReach (env : Env) : TD → TD → Prop
-  | refl (t : TD) : EmbReach env t t
-  | step {a b c : TD} : EmbReach env a b → c ∈ embeds env b → EmbReach env a c
 
 theorem mem_embedsFL_field (env : Env) : ∀ (fl : FL) (typ : TD), typ ∈ embedsFL env fl → ∃ ft, ft ∈ fieldTypes fl ∧ typ = peel ft
   | .nil, typ, h => by simp [embedsFL] at h
@@ -95,7 +91,7 @@ theorem stdFieldsWith_congr (codec : TD → Bool → Choice) (sub sub' : TD → 
 
 /-! ## the fuel -/
 
-def seenOf (V : List TD) : Seen := V.map fun t => ((t, false), Entry.building)
+def seenOf (V : List TD) : Seen := V.map fun t => ((t, false), Entry.building (t, false))
 
 def NFv (env : Env) (V : List TD) (n : Nat) : Nat := unseen env (seenOf V) * (maxDef env + 2) + n
 
@@ -143,7 +139,7 @@ theorem NFv_step (env : Env) (V : List TD) (typ typ' : TD) (hV : V.contains typ 
     NFv env (typ :: V) typ'.size < NFv env V typ.size := by
   unfold embeds fieldsOf at h
   have hmono : unseen env (seenOf (typ :: V)) ≤ unseen env (seenOf V) :=
-    unseen_mono env _ _ (mono_set (seenOf V) (typ, false) .building)
+    unseen_mono env _ _ (mono_set (seenOf V) (typ, false) (.building (typ, false)))
   cases hu : under env typ <;> simp only [hu] at h <;> try (simp [embedsFL] at h; done)
   rename_i fs
   have hsz := embedsFL_size env fs typ' h
@@ -156,7 +152,7 @@ theorem NFv_step (env : Env) (V : List TD) (typ typ' : TD) (hV : V.contains typ 
   · obtain ⟨d, hd, hmax⟩ := under_ref env id (by rw [hu]; simp)
     rw [hu] at hmax
     simp only [TD.size] at hmax
-    have hlt := unseen_set_lt env (seenOf V) (.ref id, false) .building (mem_allKeys env id d false hd)
+    have hlt := unseen_set_lt env (seenOf V) (.ref id, false) (.building (.ref id, false)) (mem_allKeys env id d false hd)
       (seenOf_find_none V _ hV)
     have hlt' : unseen env (seenOf (TD.ref id :: V)) + 1 ≤ unseen env (seenOf V) := hlt
     have := Nat.mul_le_mul_right (maxDef env + 2) hlt'
@@ -168,7 +164,7 @@ theorem NFv_step (env : Env) (V : List TD) (typ typ' : TD) (hV : V.contains typ 
 def NoHit (env : Env) (V : List TD) (typ : TD) : Prop := ∀ x, EmbReach env typ x → V.contains x = false
 
 theorem stdEmbedded_indep (codec : TD → Bool → Choice) (env : Env) :
-    ∀ (ef ef' : Nat) (V V' : List TD) (typ : TD) (b : Bool), NoEmbedCycle env typ →
+    ∀ (ef ef' : Nat) (V V' : List TD) (typ : TD) (b : Bool), NoEmbeddedCycle env typ →
       NFv env V typ.size < ef → NFv env V' typ.size < ef' → NoHit env V typ → NoHit env V' typ →
       stdEmbedded codec env ef V typ b = stdEmbedded codec env ef' V' typ b
   | 0, _, _, _, _, _, _, h, _, _, _ => by omega
@@ -180,14 +176,14 @@ theorem stdEmbedded_indep (codec : TD → Bool → Choice) (env : Env) :
     apply stdFieldsWith_congr
     intro typ' hmem b'
     have hmem' : typ' ∈ embeds env typ := hmem
-    have hsafe' : NoEmbedCycle env typ' := noEmbedCycle_of_reach hsafe (embeds_reach hmem')
+    have hsafe' : NoEmbeddedCycle env typ' := noEmbedCycle_of_reach hsafe (embeds_reach hmem')
     have hnh : ∀ W, NoHit env W typ → NoHit env (typ :: W) typ' := by
       intro W hW x hx
       simp only [List.contains_cons, Bool.or_eq_false_iff]
       constructor
       · have : x ≠ typ := by
           intro hxe; subst hxe
-          exact hsafe x typ' (.refl x) hmem' (embReach_reach hx)
+          exact hsafe x typ' (.refl x) hmem' hx
         simpa using this
       · exact hW x (embReach_trans (.step (.refl typ) hmem') hx)
     have h1 := NFv_step env V typ typ' hV hmem'
@@ -205,16 +201,16 @@ theorem NFv_nil_lt (env : Env) (t : TD) : NFv env [] t.size < embedFuel env t + 
   omega
 
 /-- **the promoted fields of an embedded struct type are its own field list**, whatever struct embeds it -/
-theorem stdEmbedded_eq_fields (d : Nat) (env : Env) (S typ : TD) (b : Bool) (hsafe : NoEmbedCycle env S)
+theorem stdEmbedded_eq_fields (d : Nat) (env : Env) (S typ : TD) (b : Bool) (hsafe : NoEmbeddedCycle env S)
     (hmem : typ ∈ embeds env S) :
     stdEmbedded (stdD d env) env (embedFuel env S) [S] typ b = stdFields d env typ b := by
-  have hsafe' : NoEmbedCycle env typ := noEmbedCycle_of_reach hsafe (embeds_reach hmem)
+  have hsafe' : NoEmbeddedCycle env typ := noEmbedCycle_of_reach hsafe (embeds_reach hmem)
   have hnil : NoHit env [] typ := fun x _ => by simp
   have hS : NoHit env [S] typ := by
     intro x hx
     have : x ≠ S := by
       intro hxe; subst hxe
-      exact hsafe x typ (.refl x) hmem (embReach_reach hx)
+      exact hsafe x typ (.refl x) hmem hx
     simpa using this
   have h0 := NFv_step env [] S typ (by simp) hmem
   have h1 := NFv_nil_lt env S
